@@ -30,7 +30,10 @@ def body(c):
         "TLC computes from SelfCal!Configs) executed in the real library; "
         "%d solves (%d successful, %d analytic TRL), %d LM loops with %d "
         "iterations (%d rejected steps, %d loops ended by the limit), %d "
-        "tolerance ladders; every hook event must be a step of LMLoop with "
+        "tolerance ladders; two thirds of the rows measure and solve the same "
+        "parameter handles a second time on another frequency grid (same / "
+        "other number of points, second vnacal_new_t on the same vnacal_t); "
+        "every hook event must be a step of LMLoop with "
         "L = configured limit and every Solve/Params/Apply/Ladder event must "
         "satisfy SelfCal's contract.  distinct_nontrivial counts episodes "
         "with pairwise different event sequences in which a solve succeeded "
